@@ -425,6 +425,36 @@ Definition gen_canc (c : construct) (cancel_chan : bool) : bool :=
   | KSend | KRecv | KRecv2 => cancel_chan
   end.
 
+(** ---------------------------------------------------------------- state generated per statement
+    (interp/run.go _select). The case vector of a select statement is built once, when the code of
+    the statement is generated; every execution copies it and writes the EXECUTING frame's
+    cancellation case into its copy: nothing an execution does is kept by the statement. That is
+    what [exec] above transcribes for every blocking operation ([Block] reads [frame_done] of the
+    executing frame), and what C10_named_partial and the history model rest on: the behaviour of
+    a definition does not depend on which evaluation executed it first. The parameter [once]
+    describes the other design (the cancellation case captured at the statement's first execution,
+    e.g. under a sync.Once): it is NOT the implementation; it is here so that the dependence is
+    stated, and the correspondence exercises it (definitions first executed inside the evaluation
+    that is cancelled, then used again). C08's translator tr-capture lists the writes a generated
+    closure makes to captured variables; such a capture adds a row for _select there. *)
+Record sel_stmt := mkSel { sel_done : option nat }.
+
+(** one execution in a frame whose cancellation channel is [d]: the statement afterwards, and the
+    channel the execution selects on *)
+Definition sel_exec (once : bool) (s : sel_stmt) (d : nat) : sel_stmt * nat :=
+  if once then
+    match sel_done s with
+    | Some d0 => (s, d0)
+    | None => (mkSel (Some d), d)
+    end
+  else (s, d).
+
+Fixpoint sel_run (once : bool) (s : sel_stmt) (ds : list nat) : list nat :=
+  match ds with
+  | [] => []
+  | d :: ds' => snd (sel_exec once s d) :: sel_run once (fst (sel_exec once s d)) ds'
+  end.
+
 (** ---------------------------------------------------------------- the frame slot of a function literal
     (interp/run.go getFunc, as repaired by abe7a69). A function literal has one frame slot.
     Executing the literal stores the new function value there (the clone kept by the value has that
